@@ -32,6 +32,10 @@ def run(chk, tier):
     E.lazy_rendering(chk, F, 'R05.7', 'std')
     from props import c08
     c08.eval_wiring(chk, F, 'R05.8', 'std')
+    # R05.13 the matcher is shown the caller's arguments on every call - whatever their types or sizes (CallPattern::match_inputs runs the
+    # stored matcher on the inputs and returns its verdict; shared with C06/C01)
+    from props.c06 import match_inputs
+    match_inputs(chk, F, 'R05.13', 'std')
     # R05.12 the arguments reach what the resolution order says they reach (clause > default body > partial-by-default > fallback mode): a provided
     # method without a clause hands them to its default body in every kind of mock, and through it to the required methods' matchers
     E.eval_dyn_table(chk, F, 'R05.12', 'std')
